@@ -165,6 +165,9 @@ PROPS = {
                    mc=None, norm=tracenorm.normalise_discovery),
     "C17": simprop(scenarios.c17, ["C17", "C06"], {"discovered": 40, "removed": 3, "rediscovered": 2, "isolated": 5}, spec="Trace_Discovery",
                    mc=None, norm=tracenorm.normalise_discovery),
+    "C30": simprop(scenarios.c30, ["C30"], {"listener": 20, "offered": 10, "offeredmiss": 5, "requestedmiss": 10, "final": 30},
+                   spec="Trace_Worker", mc=None, norm=tracenorm.normalise_worker),
+    "C31": simprop(scenarios.c31, ["C31"], {"sleep": 2000}, spec="Trace_Worker", mc=None, norm=tracenorm.normalise_worker, keep_sleep=True),
     "C18": rc("C18", {"quick": C("C18", "C18b", "C18c", "C18d"), "thorough": C("C18", "C18b", "C18c", "C18d")},
               ["history:keep-last-replaces-oldest"]),
     "C19": rc("C19", {"quick": C("C19", "C19b", "C19c"), "thorough": C("C19", "C19b", "C19c")}, ["limits:rejected"]),
@@ -242,7 +245,42 @@ def c15_run(prop, tier, seed):
         for j, c in enumerate(e2e[k:k + per]):
             steps.append({"do": "compat_case", "q": c["q"], "pp": c["pp"], "sp": c["sp"], "id": k + j, "ms": 400})
         scen.append({"name": f"C15-e2e-{k}", "family": "e2e", "seed": seed, "frag": 1344, "steps": steps})
+    # dynamic family: the requested deadline of the reader changes after discovery; the verdict of the
+    # specification for the NEW pair must be reached by both sides (incompatible -> compatible and back)
+    dl_ms = {1: 1000, 2: 2000, 3: None}
+    dl_cases = {(c["q"]["deadline"]["o"], c["q"]["deadline"]["r"]): c["inc"] == [] for c in qcases
+                if all(c["q"][g] == default_q["q"][g] for g in c["q"] if g != "deadline")}
+    dyn = []
+    for o in (1, 2, 3):
+        for ra in (1, 2, 3):
+            for rb in (1, 2, 3):
+                if ra == rb:
+                    continue
+                dyn.append({"o": o, "r1": ra, "r2": rb, "first": dl_cases[(o, ra)], "second": dl_cases[(o, rb)]})
+    for k, d in enumerate(dyn):
+        steps = [{"do": "participant"}, {"do": "participant"},
+                 {"do": "create_writer", "part": 0, "qos": scenarios.q(deadline_ms=dl_ms[d["o"]])},
+                 {"do": "create_reader", "part": 1, "qos": scenarios.q(deadline_ms=dl_ms[d["r1"]])},
+                 {"do": "sleep", "ms": 600}, {"do": "pub_status", "w": 0}, {"do": "sub_status", "r": 0},
+                 {"do": "set_reader_qos", "r": 0, "qos": scenarios.q(deadline_ms=dl_ms[d["r2"]])},
+                 {"do": "sleep", "ms": 600}, {"do": "pub_status", "w": 0}, {"do": "sub_status", "r": 0}]
+        scen.append({"name": f"C15-dyn-{k}", "family": "dyn", "seed": seed, "frag": 1344, "steps": steps, "dyn": d})
     runs = simcheck.run_sim_batch(scen, wd, "c15", jobs=4)
+    for sc, run in zip(scen, runs):
+        if "dyn" not in sc:
+            continue
+        d = sc["dyn"]
+        obs = [e for e in (run or []) if e["ev"] in ("PubStatus", "SubStatus")]
+        if len(obs) != 4:
+            report("Compat:dyn:no-observation", f"dynamic case {d} produced {len(obs)} observations", {"property": prop, "kind": "dyn", "case": d})
+            continue
+        for phase, (a, b) in (("first", obs[0:2]), ("second", obs[2:4])):
+            want = 1 if d[phase] else 0
+            if a.get("n") != want or b.get("n") != want:
+                side = "both" if a.get("n") == b.get("n") else "sides-disagree"
+                sig = f"Compat:dyn:{phase}:{'missed-match' if want else 'spurious-match'}:{side}"
+                report(sig, f"{sig}: deadline offered {d['o']} requested {d['r1']}->{d['r2']}: expected matched={want}, writer sees {a.get('n')}, reader sees {b.get('n')}",
+                       {"property": prop, "kind": "dyn", "signature": sig, "case": d, "scenario": sc})
     checked = 0
     skipped = 0
     for run in runs:
@@ -276,6 +314,7 @@ def c15_run(prop, tier, seed):
                 "code; sampled records and partition-list pairs are additionally created as real writer/reader pairs in the simulation; "
                 "non-trivial = records the specification declares incompatible",
         "function_cases": len(qcases), "function_disagreements": rep["disagreements"],
+        "dynamic_requalification_cases": len(dyn),
         "end_to_end_cases": checked, "end_to_end_cases_skipped_inconsistent_qos": skipped, "partition_cases_enumerated": len(pcases),
         "exhaustive": True,
         "checker_cmd": r1["stats"]["cmd"],
